@@ -41,7 +41,9 @@ func vfC09(w *vfWorld) {
 	cfg := vfDefaultCfg()
 	cfg.Store = vfPick(t, "c09.store", []string{"cookie", "redis"})
 	cfg.Provider = vfPick(t, "c09.provider", []string{"oidc", "oidc", "plain"})
-	E := vfPick(t, "c09.E", []time.Duration{30 * time.Minute, 2 * time.Hour, 12 * time.Hour, 90 * time.Second})
+	// (lifetimes beyond 400 days are legal: what the browser does with such a Max-Age is its business, the statement says
+	// the attribute equals the configured lifetime)
+	E := vfPick(t, "c09.E", []time.Duration{30 * time.Minute, 2 * time.Hour, 12 * time.Hour, 90 * time.Second, 30 * time.Minute, 2 * time.Hour, 9700 * time.Hour, 20000 * time.Hour})
 	Rs := []time.Duration{0, E / 3, E - time.Minute, time.Minute}
 	R := Rs[t.Choice("c09.R", len(Rs))]
 	if R >= E || R < 0 {
@@ -53,6 +55,9 @@ func vfC09(w *vfWorld) {
 	idp := w.StartIdP()
 	idp.Rotate = t.Bool("c09.rotate")
 	idp.IDTokenTTL, idp.AccessTTL = 100*time.Hour, 100*time.Hour
+	if E > 50*time.Hour {
+		idp.IDTokenTTL, idp.AccessTTL = 3*E, 3*E
+	}
 	refreshFails := t.Prob("c09.refreshfails", 150)
 	// sessions that must be split over several cookies: every part carries the lifetime
 	idp.Padding = vfPick(t, "c09.pad", []int{0, 0, 0, 3500, 7000})
